@@ -218,7 +218,7 @@ def do_replay(run, spec, path, known_classes):
         cls = fam.classify(case, impl, cls)
     print("case:           " + case)
     print("implementation: " + impl)
-    print("model:          " + mpart)
+    print("model:          " + str(mpart))
     print("specification:  " + str(spart) + (" [class %s]" % cls if cls else ""))
     bad = False
     if spart is not None:
